@@ -167,49 +167,71 @@ def gen_ids():
         int(re.search(r"Definition stack_budget : Z := (\d+)%Z", txt).group(1))
 
 
-def model_verdicts(env, shapes):
-    """shapes: name -> list of cycles (function idents).  -> (verdicts: name -> [verdict per cycle], meta, problems)."""
+def graph_fingerprint():
+    import hashlib
     ids, _ = gen_ids()
-    problems = []
-    lines = ["META", "JUMPS"]
-    keys = []
-    for name, cycles in shapes.items():
-        for i, c in enumerate(cycles):
-            missing = [f for f in c if f not in ids]
-            if missing:
-                problems.append("shape %s: function(s) %s no longer in the generated graph" % (name, ",".join(missing)))
-                continue
-            lines.append("S %s#%d %s" % (name, i, " ".join(str(ids[f]) for f in c)))
-            keys.append((name, i))
+    return hashlib.md5(",".join(sorted(ids)).encode()).hexdigest(), len(ids)
+
+
+def ask_model(env, fnames):
+    """One run of `nsmodel stack`: META, JUMPS and the status of every named function.
+    Names travel as text and are resolved by the model's own table, so the answers are always
+    about the functions meant.  -> (status: name -> str, meta) or (None, error text)."""
     inp = os.path.join(env.work, "stack.in")
     outp = os.path.join(env.work, "stack.out")
-    open(inp, "w").write("\n".join(lines) + "\n")
-    rc, out = common.sh([common.NSMODEL, "stack", inp, outp], timeout=300)
+    open(inp, "w").write("\n".join(["META", "JUMPS"] + ["F " + f for f in fnames]) + "\n")
+    if os.path.exists(outp):
+        os.remove(outp)
+    rc, out = common.sh([common.NSMODEL, "stack", inp, outp], timeout=600)
     if rc != 0 or not os.path.exists(outp):
-        return None, None, ["nsmodel stack failed: " + out[-300:]]
-    verdicts = {}
-    meta = {}
-    jumps = []
+        return None, "nsmodel stack failed: " + out[-300:]
+    status, meta, jumps = {}, {}, []
     for l in open(outp).read().splitlines():
         w = l.split()
         if w[0] == "meta":
             meta = dict(x.split("=") for x in w[1:])
         elif w[0] == "jump":
             jumps.append((int(w[1]), int(w[2]), w[3]))
-        else:
-            name, i = w[0].rsplit("#", 1)
-            verdicts.setdefault(name, {})[int(i)] = w[1]
+        elif w[0] == "fn":
+            status[w[1]] = w[2]
     meta["jumps"] = jumps
-    return verdicts, meta, problems
+    return status, meta
 
 
-def predict(vs):
-    """Model prediction for a shape from the verdicts of its cycles."""
-    if any(v == "not-a-cycle" for v in vs):
-        return "not-a-cycle"
-    if all(v == "guarded" for v in vs):
-        return "reported"
-    return "crash-when-deep"
+def model_verdicts(env, shapes):
+    """shapes: name -> list of cycles (function idents; only the set of functions matters).
+    -> (status per function, meta, problems).  If the model executable was built from another
+    revision of the graph than the GenStack.v on disk (checks of other trees run concurrently and
+    share the coq directory), it is rebuilt once before giving up."""
+    fnames = sorted({f for cycles in shapes.values() for c in cycles for f in c})
+    for attempt in (0, 1):
+        status, meta = ask_model(env, fnames)
+        if status is None:
+            return None, None, [meta]
+        fp, n = graph_fingerprint()
+        if meta.get("names") == fp:
+            return status, meta, []
+        common.run_translator()
+        common.coq_make(["Properties/C08.vo"], timeout=1500)
+        common.build_nsmodel()
+    return status, meta, ["model executable and coq/theories/GenStack.v describe different graphs (%s functions vs %d): "
+                          "a concurrent check of another tree regenerated the shared files" % (meta.get("nfuncs"), n)]
+
+
+def predict(kind, sts):
+    """Model prediction for a shape from the statuses of the functions it exercises (those that
+    still exist under that name).  kind: 'guarded' (user recursion at fixed source nesting) or
+    'nesting' (depth = nesting of text or data)."""
+    present = [s for s in sts if s != "missing"]
+    if not present:
+        return "tie-lost"
+    if "unknown" in present:
+        return "undecided"
+    if "gf-cycle" in present:
+        return "crash-when-deep"
+    if kind == "nesting" and "descent-cycle" in present:
+        return "crash-when-deep"
+    return "reported"
 
 
 def pmap(fn, items, workers=8):
@@ -289,26 +311,31 @@ def correspond(env, searching=False, model=True):
     for n, (_, cyc) in list(NESTING.items()) + list(DATA.items()):
         all_shapes[n] = cyc
     all_shapes[BLOCKS_UNDER_REC] = [[ST, BL]]
-    verdicts, meta = None, {}
+    status, meta = None, {}
     if model:
-        verdicts, meta, problems = model_verdicts(env, all_shapes)
+        status, meta, problems = model_verdicts(env, all_shapes)
         for pr in problems:
             disagreements.append({"stream": "stack-model", "error": pr})
-        if verdicts is not None:
+        if status is not None and not problems:
             _, budget = gen_ids()
             if meta.get("budget") != str(budget) or meta.get("core_acyclic") != "1" or \
                     any(j[2] != "off_cycle=1" for j in meta.get("jumps", [])) or not meta.get("jumps"):
                 disagreements.append({"stream": "stack-model", "error": "model meta unexpected: %r" % meta})
             extra["model_meta"] = {k: v for k, v in meta.items() if k != "jumps"}
     pred = {}
-    if verdicts:
+    if status and not [d for d in disagreements if "different graphs" in d.get("error", "")]:
+        fstat = {}
         for name in all_shapes:
-            vs = [verdicts.get(name, {}).get(i, "not-a-cycle") for i in range(len(all_shapes[name]))]
-            pred[name] = predict(vs)
-            if pred[name] == "not-a-cycle":
+            fns = sorted({f for c in all_shapes[name] for f in c})
+            sts = [status.get(f, "missing") for f in fns]
+            fstat[name] = dict(zip(fns, sts))
+            pred[name] = predict("guarded" if name in GUARDED else "nesting", sts)
+            if pred[name] in ("tie-lost", "undecided"):
                 disagreements.append({"stream": "stack-model", "shape": name,
-                                      "error": "the function cycle assumed for this shape is not a cycle of the regenerated call graph: %s" % vs})
+                                      "error": "none of the functions assumed for this shape can be classified on the regenerated call graph "
+                                               "(renamed or restructured: update the shape's function list): %s" % fstat[name]})
         extra["model_prediction"] = pred
+        extra["model_function_status"] = {f: st for d in fstat.values() for f, st in d.items()}
 
     # ---- A. user recursion of unbounded depth: reported error, never a signal
     jobs = [(n, rel) for n in GUARDED for rel in profiles]
@@ -457,7 +484,7 @@ def correspond(env, searching=False, model=True):
         per_act = budget // d if d else None
         ms, n = min_stack_for_report(env, rel, GUARDED["rec-direct"][0])
         evaluations += n
-        L = int(meta.get("L", 0) or 0) if meta else 0
+        L = int((meta or {}).get("L", 0) or 0)
         e = {"activations_to_budget": d, "bytes_per_activation_estimate": per_act, "min_stack_kib_for_report": ms,
              "observed_need_beyond_budget_kib": ms - budget // 1024}
         if per_act and L:
